@@ -150,8 +150,9 @@ Inductive event :=
 Inductive lvkind :=
 | LvGlobal (file : Z)              (* enterGlobalScope + cmplEvaluateNodeProgram *)
 | LvFunc (name file : Z)           (* nodeFunctionObject call: callee fn.node.name, file fn.node.file *)
-| LvFuncNoFile (file : Z)          (* function made by Function(...): compiler{} has no file; the
-                                      harness still lists the synthesised source as [file] *)
+| LvFuncNoFile (name file : Z)     (* function made by Function(...) or a function literal inside
+                                      one: compiler{} has no file; the harness still lists the
+                                      synthesised source as [file] *)
 | LvNative (name : Z).             (* nativeFunctionObject call *)
 
 Definition level := (lvkind * list event)%type.
@@ -160,7 +161,7 @@ Definition init_frame (fx : fixes) (k : lvkind) : frame :=
   match k with
   | LvGlobal f => mkFrame false f 0 0
   | LvFunc n f => mkFrame false f n 0
-  | LvFuncNoFile f => mkFrame false (if fx_nofile fx then f else -1) 0 0
+  | LvFuncNoFile n f => mkFrame false (if fx_nofile fx then f else -1) n 0
   | LvNative n => mkFrame true (-1) n 0
   end.
 
@@ -331,6 +332,7 @@ Definition model_class (kind : Z) : Z :=
   | 34 => 6                   (* ToObject(null/undefined) in a built-in *)
   | 35 => 6                   (* array iteration built-ins with a non-callable *)
   | 36 => 6                   (* [[DefineOwnProperty]] rejected with throw *)
+  | 37 => 5                   (* new RegExp: pattern rejected by regexp.Compile *)
   | 41 => 1 | 42 => 2 | 43 => 3 | 44 => 4 | 45 => 5 | 46 => 6 | 47 => 7   (* new XError(msg) *)
   | 51 => 1 | 52 => 2 | 53 => 3 | 54 => 4 | 55 => 5 | 56 => 6 | 57 => 7   (* XError(msg) *)
   | _ => 0
